@@ -102,7 +102,7 @@
         env.add_template("inc_list", "{% include ['nope', 'inc'] %}|{% include 'nope' ignore missing %}|").unwrap();
         env.add_template("inc_missing", "a{% include 'nope' %}b").unwrap();
         env.add_template("inc_list_ignore", "{% include ['nope', 'inc'] ignore missing %}|{% include ['nope', 'nope2'] ignore missing %}|{% for v in [3] %}{% include ['nope', 'nope2', 'inc'] ignore missing %}{% endfor %}").unwrap();
-        env.add_template("setinc", "{% extends 'base' %}{% block a %}x{% endblock %}{% set cap %}{% include 'withblocks' %}{% endset %}").unwrap();
+        env.add_template("setinc", "{% extends 'base' %}ignored{% set cap %}{% filter upper %}{% include 'withblocks' %}{% endfilter %}{% endset %}{% block a %}{{ cap }}|{{ cap }}{% endblock %}").unwrap();
         env.add_template("withblocks", "w[{% block label %}label={{ n|default('n') }}{% endblock %}]").unwrap();
         env.add_template("capinc", "{% set cap %}{% include 'withblocks' %}{% endset %}{{ cap }}{% filter upper %}{% include 'withblocks' %}{% endfilter %}").unwrap();
         env.add_template("lib", "{% macro m(x) %}m{{ x }}{% endmacro %}{% set top = 5 %}{% if true %}{% set inner = 6 %}{% endif %}").unwrap();
@@ -126,7 +126,7 @@
         assert!(r("inc_missing", none.clone()).unwrap_err().kind() == ErrorKind::TemplateNotFound);
         assert!(r("inc_list_ignore", none.clone()).unwrap() == "I()||I(3)", "include list with ignore missing: {:?}", r("inc_list_ignore", none.clone()));
         assert!(r("capinc", none.clone()).unwrap() == "w[label=n]W[LABEL=N]", "{:?}", r("capinc", none.clone()));
-        assert!(r("setinc", none.clone()).unwrap() == "<x>", "{:?}", r("setinc", none.clone()));
+        assert!(r("setinc", none.clone()).unwrap() == "<W[LABEL=N]|W[LABEL=N]>", "captured include at the top level of an extending template: {:?}", r("setinc", none.clone()));
         assert!(r("importer", none.clone()).unwrap() == "m15m25");
         assert!(r("cyc_a", none.clone()).is_err(), "inheritance cycle must fail");
         assert!(r("self_inc", none.clone()).is_err(), "include cycle must fail");
